@@ -468,7 +468,8 @@ def _lint(ctx, prop):
         d3, nd3 = lint.rule_D3(ctx, files)
         cp, ncp = lint.rule_CP1(ctx, files)
         nb, nnb = lint.rule_NB1(ctx, files)
-        out += [sw, ov, n1, d3, cp, nb]
+        zq, nzq = lint.rule_ZQ1(ctx, files)
+        out += [sw, ov, n1, d3, cp, nb, zq]
     return out
 
 
